@@ -169,9 +169,9 @@ pub fn run(run: Run) -> ! {
         let block = 1u32 << 24;
         let mut s = 0u32;
         while s <= one {
-            let cnt = ((one - s) / 1024 + 1).min(block / 1024);
-            ranges.push((s, cnt, 1024));
-            s += cnt * 1024;
+            let cnt = ((one - s) / 64 + 1).min(block / 64);
+            ranges.push((s, cnt, 64));
+            s += cnt * 64;
         }
         ranges.push((0, 4096, 1));
         ranges.push((one - 4095, 4096, 1));
@@ -349,7 +349,7 @@ pub fn run(run: Run) -> ! {
     cov.insert("traces_validated_against_impl".into(), json!(acc.per.iter().map(|p| p.def_checked).sum::<u64>()));
     cov.insert("evaluations".into(), json!(acc.evals));
     cov.insert("distinct_nontrivial".into(), json!(pts));
-    cov.insert("rule".into(), json!(if thorough { "ALL 1 065 353 217 f32 values of [0,1] x 29 built-in easings (definition reference at every 16th value and wherever the parametric reading is not matched); mirrors on a 2^22 grid; non-trivial = (easing, x) evaluations" } else { "every 1024th f32 bit pattern of [0,1] (1.04e6 points) plus the 4096 patterns next to 0 and next to 1 and 1024 around 1/2,1/4,3/4,0.1,0.3,0.9, x 29 built-in easings; mirrors on a 2^16 grid; non-trivial = (easing, x) evaluations" }));
+    cov.insert("rule".into(), json!(if thorough { "ALL 1 065 353 217 f32 values of [0,1] x 29 built-in easings (definition reference at every 16th value and wherever the parametric reading is not matched); mirrors on a 2^22 grid; non-trivial = (easing, x) evaluations" } else { "every 64th f32 bit pattern of [0,1] (1.66e7 points) plus the 4096 patterns next to 0 and next to 1 and 1024 around 1/2,1/4,3/4,0.1,0.3,0.9, x 29 built-in easings; mirrors on a 2^16 grid; non-trivial = (easing, x) evaluations" }));
     cov.insert("exhaustive".into(), json!(true));
     cov.insert("oracles".into(), json!("calc(0)==0, calc(1)==1 exactly; non-Back: 0<=y<=1 and y(next x) >= y(x) - 2 ulp; Linear identity bit-for-bit; |Out(x) - (1-In(1-x))| <= 1e-5 and InOut self-mirror; Custom(f) == f bit-for-bit directly and through a timeline; definition: |calc(x) - B_y(t*)| <= 1e-4 with B_x(t*) = x from an independent control-point table"));
     cov.insert("per_easing_definition_summary".into(), json!(def_summary));
